@@ -12,7 +12,7 @@ EXPLANATION = (
     "[ID-PARSE/ID-BUILD] (1) after substituting the builder's bits into the parser, the parser's predicate has the same provenance as the builder's, so "
     "branches pair; (2) parse(build(x)) returns priority, source, PGN bit for bit (PDU1: PGN with PS cleared, i.e. the PGN itself in canonical form) and "
     "dest for PDU1 / the constant 255 for PDU2; (3) build(parse(id)) reproduces all 29 identifier bits in both branches and bits 29..31 are never "
-    "consulted. [ID-ACT] same for the Actisense header integer. [ID-BYTES] each writer/reader pair uses the same byte order for the 4 identifier bytes. "
+    "consulted. [ID-ACT] same for the Actisense header integer. [ID-BYTES] each writer/reader pair uses the same byte order for the 4 identifier bytes. [ID-USE] each frame-level writer calls _build_header itself, once per message, with the message's own PGN/source/destination/priority in those roles (interpreted over the provenance domain). "
     "Each obligation is per bit, hence exhaustive over all 2^29 identifiers. Nothing undecided inside the property's quantifier; out-of-range arguments "
     "(dest > 255, PGN > 18 bits) are outside it."
 )
@@ -33,6 +33,7 @@ def run(chk, program, tier):
     chk.rule('ID-BUILD', 'build(parse(id)) = id on all 29 bits; bits 29..31 unused')
     chk.rule('ID-ACT', 'Actisense header integer build/parse inverse')
     chk.rule('ID-BYTES', 'byte order of the identifier agrees between writer and reader of each format')
+    chk.rule('ID-USE', 'each writer builds the identifier of the message it writes, afresh')
     pf = program.fn('decoder', 'NMEA2000Decoder._extract_header')
     bf = program.fn('encoder', 'NMEA2000Encoder._build_header')
     pex, pret = _ret_terms(pf)
@@ -49,6 +50,10 @@ def run(chk, program, tier):
     try:
         pbr = B.branches(list(pret[1]), {idp: 32})
         bbr = B.branches([bret], bw)
+    except B.Overlap as t:
+        chk.violation('ID-BUILD', 'header::fields-overlap', file=ENC, line=bf.lineno, func='_build_header/_extract_header', expected='every identifier bit carries one input bit',
+                      found=str(t), detail='two inputs are packed into the same bit position: the identifier cannot be parsed back')
+        return
     except B.Top as t:
         chk.unknown('ID-PARSE', 'header functions', f"bit provenance gave up: {t}", DEC, pf.lineno)
         return
@@ -96,7 +101,7 @@ def run(chk, program, tier):
         chk.ok('ID-PARSE', f"{inst}::branch-pairing", file=DEC, line=pf.lineno, func='_extract_header', found=[_s(p[0]) for p in bpreds.values()])
         pass_, pvs = paired
         out = {r: B.substitute(v, {idp: idv}) for r, v in zip(roles, pvs)}
-        pdu1 = _is_pdu1(bass)
+        pdu1 = _is_pdu1(pass_)
         exp = {
             'priority': [(bparams[3], i) for i in range(3)],
             'source': [(bparams[1], i) for i in range(8)],
@@ -136,6 +141,7 @@ def run(chk, program, tier):
         chk.check(len(rebuilt) <= 29, 'ID-BUILD', f"{inst}::no-bits-above-28", file=ENC, line=bf.lineno, func='_build_header', expected='<= 29 bits', found=len(rebuilt))
     actisense(chk, program)
     id_bytes(chk, program)
+    id_use(chk, program)
     chk.floor('bit_obligations', len(chk.obs), 150)
 
 def _is_pdu1(assume):
@@ -175,6 +181,10 @@ def actisense(chk, program):
         raise AnalysisError("encode_actisense: header integer `n` not found")
     try:
         nvec = B.trim(B.bits(nterm, {}, env=env))
+    except B.Overlap as t:
+        chk.violation('ID-ACT', 'encode_actisense::fields-overlap', file=ENC, line=ef.lineno, func='encode_actisense', expected='source, destination and priority occupy disjoint bits of the header',
+                      found=str(t), detail='two header fields share a bit: the reader cannot separate them')
+        return
     except (B.Top, B.NeedBranch) as t:
         chk.unknown('ID-ACT', 'encode_actisense', f"bit provenance gave up: {t}", ENC, ef.lineno)
         return
@@ -211,6 +221,28 @@ def actisense(chk, program):
     chk.check(spec is not None and spec.strip("f'\"").upper().endswith('X'), 'ID-ACT', 'radix::encode', file=ENC, line=ef.lineno, func='encode_actisense', expected='hexadecimal format', found=spec)
     chk.check(nin[0] == 'call' and nin[1] == ('name', 'int') and len(nin[2]) == 2 and nin[2][1] == C(16), 'ID-ACT', 'radix::decode', file=DEC, line=df.lineno,
               func='decode_actisense_string', expected='int(token, 16)', found=sym.show(nin))
+
+def id_use(chk, program):
+    """every frame-level writer obtains the identifier from _build_header(PGN, source, destination, priority) of the message being
+    written, in those roles, afresh for each message (no state between messages)"""
+    from .. import wire as Wr, absint as Ab
+    want = [('pgn', 18), ('src', 8), ('dst', 8), ('prio', 3)]
+    for meth in ('encode_ebyte', 'encode_usb', 'encode_yacht_devices'):
+        fn = program.fn('encoder', f"NMEA2000Encoder.{meth}")
+        try:
+            res, rec = Wr.encode_with(program, meth, [Wr.frame_bytes(8)])
+        except (Ab.Unknown, Ab.RaiseSignal) as u:
+            chk.unknown('ID-USE', meth, f"writer not interpretable: {u}", ENC, fn.lineno)
+            continue
+        args = rec.header_arg
+        ok = args is not None and len(args) == 4 and all(isinstance(a, Ab.AInt) and a.vec() is not None and B.trim(a.vec()) == [(n, k) for k in range(w)] for a, (n, w) in zip(args, want))
+        chk.check(ok, 'ID-USE', f"{meth}::identifier-of-this-message", file=ENC, line=fn.lineno, func=meth,
+                  expected='_build_header(message.PGN, message.source, message.destination, message.priority)', found=[repr(a) for a in args] if args else 'no call of _build_header')
+        # called directly by the writer (not through a cache / helper holding state between messages)
+        direct = [n for n in ast.walk(fn) if isinstance(n, ast.Call) and isinstance(n.func, ast.Attribute) and n.func.attr == '_build_header']
+        chk.check(len(direct) == 1, 'ID-USE', f"{meth}::built-afresh", file=ENC, line=fn.lineno, func=meth,
+                  expected='the writer itself calls _build_header once per message', found=f"{len(direct)} direct calls",
+                  detail='' if len(direct) == 1 else 'an identifier obtained through another function may be cached across messages (e.g. keyed without the destination)')
 
 def _byteorder_of(call):
     for k in call.keywords:
